@@ -68,6 +68,8 @@ impl TombstoneLog {
         tombstones: &mut Vec<Tombstone>,
     ) -> Result<Self> {
         let mut recovered = vec![];
+        // Offset of the current page in the whole log (across all partitions).
+        let mut page_offset = 0;
 
         for partition in partitions.iter() {
             for offset in (0..partition.size()).step_by(PAGE) {
@@ -83,13 +85,14 @@ impl TombstoneLog {
                     let tombstone = Tombstone::read(buf);
                     if tombstone.sequence > seq {
                         seq = tombstone.sequence;
-                        addr = slot * Tombstone::SERIALIZED_LEN;
+                        addr = page_offset + slot * Tombstone::SERIALIZED_LEN;
                     }
                     if tombstone.sequence == 0 {
                         continue;
                     }
                     recovered.push((tombstone, addr));
                 }
+                page_offset += PAGE;
             }
         }
 
